@@ -149,7 +149,15 @@ class GinProp(Prop):
         evs = walk(case, io, mo)
         cw = self.correspondence(case, evs)
         ow = self.oracle(case, evs)
+        from .p_poker import fork_diff
+        fd = fork_diff(case, io, self.fields, self.compare_results, fmt=op_str)
+        if fd:
+            ow = [fd] + ow
         key, tags = self.key_tags(case, evs)
+        if io.get("fork"):
+            tags = list(tags) + ["forked"]
+        if case.get("ints"):
+            tags = list(tags) + ["int-flags"]
         return Verdict(not cw, not ow, " ;; ".join([w[:500] for w in ow[:5] + cw[:3]]), key, tags)
 
     def shrink_candidates(self, case):
